@@ -240,7 +240,7 @@ func runC08(c *Ctx) {
 			if !direct {
 				// the returns reached from the call all carry E (operands resolved along the path: the return sits at
 				// a merge of several such calls)
-				frs := returnsAfter(s.call)
+				frs := returnsAfterKnowing(s.call, E)
 				direct = len(frs) > 0
 				for _, fr := range frs {
 					if !derivedFrom(fr.ops[ei], E, 0) {
@@ -272,7 +272,7 @@ func runC08(c *Ctx) {
 			// the non-nil branch does not return at once (break, or the success path is nested under err == nil and both
 			// meet at one return): every return reached from the failure edge must carry E; the operands are resolved
 			// along the path (a phi takes the value of the edge the path came in by)
-			failRets = returnsFromEdge(tested.Block(), nonNilIdx)
+			failRets = returnsFromEdgeKnowing(tested.Block(), nonNilIdx, E)
 			for _, fr := range failRets {
 				nret++
 				if op := fr.ops[ei]; !derivedFrom(op, E, 0) {
@@ -338,6 +338,12 @@ type failReturn struct {
 // returnsFromEdge walks every path from the idx-th successor edge of block b to the returns it reaches; phis take the
 // value of the edge the path entered their block by, named results spilled to cells are read back (ReturnOperand).
 func returnsFromEdge(b *ssa.BasicBlock, idx int) []failReturn {
+	return returnsFromEdgeKnowing(b, idx, nil)
+}
+
+// returnsFromEdgeKnowing is returnsFromEdge for a walk on which the value nonNil is known not to be nil: a later test of
+// that same value (possibly through a phi the path resolved to it) against nil has only one feasible outcome.
+func returnsFromEdgeKnowing(b *ssa.BasicBlock, idx int, nonNil ssa.Value) []failReturn {
 	var out []failReturn
 	type key struct{ b, from *ssa.BasicBlock }
 	seen := map[key]bool{}
@@ -387,6 +393,30 @@ func returnsFromEdge(b *ssa.BasicBlock, idx int) []failReturn {
 			out = append(out, fr)
 			return
 		}
+		if iff, ok := blk.Instrs[len(blk.Instrs)-1].(*ssa.If); ok && nonNil != nil && len(blk.Succs) == 2 {
+			if bo, ok := iff.Cond.(*ssa.BinOp); ok && (bo.Op == token.EQL || bo.Op == token.NEQ) {
+				x := bo.X
+				if core.IsNilConst(x) {
+					x = bo.Y
+				} else if !core.IsNilConst(bo.Y) {
+					x = nil
+				}
+				if ph, isPhi := x.(*ssa.Phi); isPhi {
+					if v, ok := ne[ph]; ok {
+						x = v
+					}
+				}
+				if x != nil && x == nonNil {
+					// x != nil holds: "x == nil" is false, "x != nil" is true
+					if bo.Op == token.EQL {
+						walk(blk.Succs[1], blk, ne)
+					} else {
+						walk(blk.Succs[0], blk, ne)
+					}
+					return
+				}
+			}
+		}
 		for _, s := range blk.Succs {
 			walk(s, blk, ne)
 		}
@@ -397,8 +427,81 @@ func returnsFromEdge(b *ssa.BasicBlock, idx int) []failReturn {
 	return out
 }
 
+// passedReturn: a return reached from the function entry, operands resolved along the path, and whether the path
+// executed an instruction satisfying the predicate.
+type passedReturn struct {
+	failReturn
+	passed bool
+}
+
+// returnsFromEntry walks every path from the entry of fn to its returns (phis resolved by the edge taken) and records
+// for each whether an instruction satisfying through was executed on the way.
+func returnsFromEntry(fn *ssa.Function, through func(ssa.Instruction) bool) []passedReturn {
+	var out []passedReturn
+	type key struct {
+		b, from *ssa.BasicBlock
+		passed  bool
+	}
+	seen := map[key]bool{}
+	var walk func(blk, from *ssa.BasicBlock, env map[*ssa.Phi]ssa.Value, passed bool)
+	walk = func(blk, from *ssa.BasicBlock, env map[*ssa.Phi]ssa.Value, passed bool) {
+		k := key{blk, from, passed}
+		if seen[k] || len(out) > 256 {
+			return
+		}
+		seen[k] = true
+		ne := map[*ssa.Phi]ssa.Value{}
+		for a, b := range env {
+			ne[a] = b
+		}
+		for _, in := range blk.Instrs {
+			if phi, ok := in.(*ssa.Phi); ok {
+				for i, p := range blk.Preds {
+					if p == from {
+						v := phi.Edges[i]
+						if ph, isPhi := v.(*ssa.Phi); isPhi {
+							if r, ok := env[ph]; ok {
+								v = r
+							}
+						}
+						ne[phi] = v
+					}
+				}
+				continue
+			}
+			if through(in) {
+				passed = true
+			}
+		}
+		if r, ok := blk.Instrs[len(blk.Instrs)-1].(*ssa.Return); ok {
+			pr := passedReturn{failReturn{ret: r}, passed}
+			for i := range r.Results {
+				op := core.ReturnOperand(r, i)
+				if ph, isPhi := op.(*ssa.Phi); isPhi {
+					if v, ok := ne[ph]; ok {
+						op = v
+					}
+				}
+				pr.ops = append(pr.ops, op)
+			}
+			out = append(out, pr)
+			return
+		}
+		for _, s := range blk.Succs {
+			walk(s, blk, ne, passed)
+		}
+	}
+	if len(fn.Blocks) > 0 {
+		walk(fn.Blocks[0], nil, map[*ssa.Phi]ssa.Value{}, false)
+	}
+	return out
+}
+
 // returnsAfter lists the returns reached after instruction in, operands resolved along each path.
-func returnsAfter(in ssa.Instruction) []failReturn {
+func returnsAfter(in ssa.Instruction) []failReturn { return returnsAfterKnowing(in, nil) }
+
+// returnsAfterKnowing: the returns reached after in on the paths on which nonNil is not nil.
+func returnsAfterKnowing(in ssa.Instruction, nonNil ssa.Value) []failReturn {
 	b := in.Block()
 	if r, ok := b.Instrs[len(b.Instrs)-1].(*ssa.Return); ok {
 		fr := failReturn{ret: r}
@@ -408,8 +511,19 @@ func returnsAfter(in ssa.Instruction) []failReturn {
 		return []failReturn{fr}
 	}
 	var out []failReturn
+	if iff, ok := b.Instrs[len(b.Instrs)-1].(*ssa.If); ok && nonNil != nil && len(b.Succs) == 2 {
+		// the block of the call itself ends in a test of the value
+		if bo, ok := iff.Cond.(*ssa.BinOp); ok && (bo.Op == token.EQL || bo.Op == token.NEQ) {
+			if (bo.X == nonNil && core.IsNilConst(bo.Y)) || (bo.Y == nonNil && core.IsNilConst(bo.X)) {
+				if bo.Op == token.EQL {
+					return returnsFromEdgeKnowing(b, 1, nonNil)
+				}
+				return returnsFromEdgeKnowing(b, 0, nonNil)
+			}
+		}
+	}
 	for i := range b.Succs {
-		out = append(out, returnsFromEdge(b, i)...)
+		out = append(out, returnsFromEdgeKnowing(b, i, nonNil)...)
 	}
 	return out
 }
